@@ -152,6 +152,7 @@ struct Ctx {
 	// first segment has sub-segments).  Such inputs get their own violation keys so that they cannot hide a
 	// defect that shows on inputs without this feature.
 	bool parent_labelled = false;
+	int del = -1; // vertex deleted in the operation sequence being judged (-1: none)
 };
 
 // Files whose reload was executed, checked against the model and found to reproduce every observable of the
@@ -170,7 +171,7 @@ static std::string bytes_key(const std::string& bytes) {
 static void viol(Ctx& x, const std::string& when, const std::string& what, const std::string& msg) {
 	x.failed = true;
 	x.st.violation(x.s.ver + ":" + x.s.kind + ":" + when + ":" + what + (x.parent_labelled ? ":parent-labelled-input" : ""),
-				   x.s.ver + " " + x.s.kind + " " + when + ": " + msg, state_json(x.s));
+				   x.s.ver + " " + x.s.kind + " " + when + (x.del >= 0 ? vf::strf(" (vertex %d deleted)", x.del) : std::string()) + ": " + msg, state_json(x.s));
 }
 
 static std::string tris_str(const std::vector<Tri3>& v) {
@@ -180,7 +181,17 @@ static std::string tris_str(const std::vector<Tri3>& v) {
 }
 
 // ---------------------------------------------------------------- segments: checks
+static bool check_segments_(Ctx& x, NiShape* shape, const Expect& e, const std::string& when);
+// returns whether this call found everything in order; x.failed accumulates over the whole state
 static bool check_segments(Ctx& x, NiShape* shape, const Expect& e, const std::string& when) {
+	bool before = x.failed;
+	x.failed = false;
+	check_segments_(x, shape, e, when);
+	bool ok = !x.failed;
+	x.failed = before || !ok;
+	return ok;
+}
+static bool check_segments_(Ctx& x, NiShape* shape, const Expect& e, const std::string& when) {
 	auto* b = dynamic_cast<BSSubIndexTriShape*>(shape);
 	if (!b) { viol(x, when, "not-bssubindextrishape", "shape is not a BSSubIndexTriShape"); return false; }
 	const State& s = x.s;
@@ -282,7 +293,6 @@ static bool check_segments(Ctx& x, NiShape* shape, const Expect& e, const std::s
 		if (cover[t] != 1) viol(x, when, "triangle-not-in-exactly-one-segment", vf::strf("triangle %zu lies in %d segment ranges", t, cover[t]));
 		else if (subcover[t] > 1) viol(x, when, "triangle-in-several-subsegments", vf::strf("triangle %zu lies in %d sub-segment ranges", t, subcover[t]));
 	}
-	// observation: is the order inside equal labels the original order (stable sort)?  Not required by the statement.
 	return !x.failed;
 }
 
@@ -366,6 +376,7 @@ static void reload_check_segments(Ctx& x, NifFile& nif, NiShape* shape, const Ex
 static void full_sequence_segments(Ctx& x, const State& s, const NifSegmentationInfo& inf, const std::vector<Triangle>& tris, const std::vector<int>& want) {
 	Stats& st = x.st;
 	for (int del = -1; del < NV; del++) {
+		x.del = del;
 		NifFile nif;
 		NiShape* shape = build_seg_shape(nif, s, tris);
 		if (!shape) { viol(x, "build", "create-returns-null", "CreateShapeFromData returned nullptr"); return; }
@@ -381,7 +392,7 @@ static void full_sequence_segments(Ctx& x, const State& s, const NifSegmentation
 		}
 		Expect e = expect_after(tris, want, del);
 		if (check_segments(x, shape, e, when)) reload_check_segments(x, nif, shape, e, when + "+reload");
-		if (x.failed) break; // one counterexample per state; every later operation starts from a fresh build anyway
+		// a failure does not end the state: every deletion starts from a fresh build and is judged on its own
 	}
 }
 
@@ -466,7 +477,16 @@ static NiShape* build_skinned(NifFile& nif, const State& s, const std::vector<Tr
 	return shape;
 }
 
+static bool check_partitions_(Ctx& x, NifFile& nif, NiShape* shape, const Expect& e, const std::string& when);
 static bool check_partitions(Ctx& x, NifFile& nif, NiShape* shape, const Expect& e, const std::string& when) {
+	bool before = x.failed;
+	x.failed = false;
+	check_partitions_(x, nif, shape, e, when);
+	bool ok = !x.failed;
+	x.failed = before || !ok;
+	return ok;
+}
+static bool check_partitions_(Ctx& x, NifFile& nif, NiShape* shape, const Expect& e, const std::string& when) {
 	std::vector<Triangle> cur;
 	shape->GetTriangles(cur);
 	std::vector<Tri3> a, as, cs;
@@ -565,6 +585,7 @@ static void run_partitions_state(const State& s, Stats& st) {
 		info.push_back(pi);
 	}
 	for (int del = -1; del < NV; del++) {
+		x.del = del;
 		NifFile nif;
 		NiShape* shape = build_skinned(nif, s, tris);
 		if (!shape) { viol(x, "build", "create-returns-null", "CreateShapeFromData returned nullptr"); return; }
@@ -598,7 +619,6 @@ static void run_partitions_state(const State& s, Stats& st) {
 				if (rs && check_partitions(x, re, rs, e, when + "+reload") && obs_partitions(re, rs) == obs_partitions(nif, shape)) g_faithful.insert(key);
 			}
 		}
-		if (x.failed) break;
 	}
 	st.distinct("outcomes", vf::strf("%s:partitions:%s:%s", s.ver.c_str(), s.update ? "update" : "plain", x.failed ? "FAIL" : "ok"));
 }
